@@ -1,6 +1,7 @@
 /-
   Read-only evaluation and the rendered document (C09): if the heap is preserved in the sense
-  of `HeapPreserved`, the JSON rendering of a value none of whose parts is unset is unchanged.
+  of `HeapPreserved`, the JSON rendering of every value whose document lies in the old heap is
+  unchanged.
 -/
 import Jqawk.Lemmas.ReadOnly
 import Jqawk.Lemmas.Reach
@@ -10,18 +11,18 @@ set_option linter.unusedVariables false
 
 namespace Jqawk
 
-/-- the document rooted at `v0` is *solid*: no value in it (including `v0`) is unset, and every
-    container in it is allocated -/
-structure DocSolid (h : Heap) (v0 : Val) : Prop where
-  set : ∀ v, RootReach h v0 v → v ≠ .unknown
-  arr : ∀ a, RootReach h v0 (.arr a) → a < h.arrs.size
-  obj : ∀ o, RootReach h v0 (.obj o) → o < h.objs.size
+/-- the document rooted at `v0` lies in the heap: every array / object in it is allocated and so
+    is every cell they refer to (no dangling ids; implied by any reasonable well-formedness of
+    the heap, true for everything loaded from JSON: `newValueJson_docAllocated`) -/
+structure DocAllocated (h : Heap) (v0 : Val) : Prop where
+  arr : ∀ a, RootReach h v0 (.arr a) → a < h.arrs.size ∧ ∀ c ∈ (h.arr a).toList, c < h.cells.size
+  obj : ∀ o, RootReach h v0 (.obj o) → o < h.objs.size ∧ ∀ kv ∈ h.obj o, kv.2 < h.cells.size
 
 theorem mem_sortByKey {l : List (Bytes × CellId)} {kv : Bytes × CellId} (h : kv ∈ sortByKey l) : kv ∈ l := by
   rw [sortByKey_eq_sortK] at h
   exact (sortK_perm l).mem_iff.mp h
 
-theorem toJVal_preserved {h h' : Heap} (p : HeapPreserved h h') {v0 : Val} (hs : DocSolid h v0) :
+theorem toJVal_preserved {h h' : Heap} (p : HeapPreserved h h') {v0 : Val} (hs : DocAllocated h v0) :
     ∀ (n : Nat) (path : List Cont) (check : Bool) (v : Val), RootReach h v0 v →
       toJVal h' n path check v = toJVal h n path check v := by
   intro n
@@ -36,28 +37,29 @@ theorem toJVal_preserved {h h' : Heap} (p : HeapPreserved h h') {v0 : Val} (hs :
       | arr a =>
         have hp : (check && path.contains (.a a)) = false := by simpa [onPath_arr] using hon'
         rw [toJVal_arr_unfold h' n path check a hp, toJVal_arr_unfold h n path check a hp,
-          p.arr a (hs.arr a hr)]
+          p.arr a (hs.arr a hr).1]
         congr 2
         apply List.map_congr_left
         intro c hc
         have hch : RootReach h v0 (h.get c) := hr.child rfl (Child.arr a c hc)
-        rw [p.get c (hs.set _ hch)]
+        rw [p.get c ((hs.arr a hr).2 c hc)]
         exact ih _ _ _ hch
       | obj o =>
         have hp : (check && path.contains (.o o)) = false := by simpa [onPath_obj] using hon'
         rw [toJVal_obj_unfold h' n path check o hp, toJVal_obj_unfold h n path check o hp,
-          p.obj o (hs.obj o hr)]
+          p.obj o (hs.obj o hr).1]
         congr 2
         apply List.map_congr_left
         intro kv hkv
-        have hch : RootReach h v0 (h.get kv.2) := hr.child rfl (Child.obj o kv (mem_sortByKey hkv))
-        rw [p.get kv.2 (hs.set _ hch)]
+        have hmem := mem_sortByKey hkv
+        have hch : RootReach h v0 (h.get kv.2) := hr.child rfl (Child.obj o kv hmem)
+        rw [p.get kv.2 ((hs.obj o hr).2 kv hmem)]
         rw [ih _ _ _ hch]
       | _ => rw [toJVal.eq_def, toJVal.eq_def h]
 
-/-- the JSON form (`ToGoValue`, what `json()` and the output use) of a solid value is the same
+/-- the JSON form (`ToGoValue`, what `json()` and the output use) of such a value is the same
     in the new heap -/
-theorem toJValTop_preserved {h h' : Heap} (p : HeapPreserved h h') {v : Val} (hs : DocSolid h v) :
+theorem toJValTop_preserved {h h' : Heap} (p : HeapPreserved h h') {v : Val} (hs : DocAllocated h v) :
     toJValTop h' v = toJValTop h v := by
   unfold toJValTop
   have hne : toJVal h (renderFuel h) [] false v ≠ .oof :=
@@ -69,11 +71,11 @@ theorem toJValTop_preserved {h h' : Heap} (p : HeapPreserved h h') {v : Val} (hs
     simp only [renderFuel]; omega
   rw [toJVal_fuel_mono h' (renderFuel h) (renderFuel h') hle [] false v (by rw [e1]; exact hne), e1]
 
-/-- … in particular for the value of a cell, which itself is unchanged -/
+/-- … in particular for the value of an allocated cell, which itself is unchanged -/
 theorem toJValTop_cell_preserved {h h' : Heap} (p : HeapPreserved h h') (c : CellId)
-    (hs : DocSolid h (h.get c)) :
+    (hc : c < h.cells.size) (hs : DocAllocated h (h.get c)) :
     h'.get c = h.get c ∧ toJValTop h' (h'.get c) = toJValTop h (h.get c) := by
-  have e : h'.get c = h.get c := p.get c (hs.set _ (Or.inl rfl))
+  have e : h'.get c = h.get c := p.get c hc
   exact ⟨e, by rw [e]; exact toJValTop_preserved p hs⟩
 
 /-- a set of values closed under "element / member of" that contains `v0` contains the whole
@@ -96,19 +98,18 @@ theorem rootReach_closed (h : Heap) (v0 : Val) (S : Val → Prop) (h0 : S v0)
     · obtain ⟨u, hu, hue⟩ := hreach d e hre ⟨v0, h0, hd⟩
       exact hstep u e v hu hue hc
 
-theorem DocSolid.of_closed (h : Heap) (v0 : Val) (S : Val → Prop) (h0 : S v0)
+theorem DocAllocated.of_closed (h : Heap) (v0 : Val) (S : Val → Prop) (h0 : S v0)
     (hstep : ∀ v d w, S v → v.cont? = some d → Child h d w → S w)
-    (hset : ∀ v, S v → v ≠ .unknown) (harr : ∀ a, S (.arr a) → a < h.arrs.size)
-    (hobj : ∀ o, S (.obj o) → o < h.objs.size) : DocSolid h v0 :=
-  ⟨fun v hv => hset v (rootReach_closed h v0 S h0 hstep v hv),
-   fun a hv => harr a (rootReach_closed h v0 S h0 hstep _ hv),
+    (harr : ∀ a, S (.arr a) → a < h.arrs.size ∧ ∀ c ∈ (h.arr a).toList, c < h.cells.size)
+    (hobj : ∀ o, S (.obj o) → o < h.objs.size ∧ ∀ kv ∈ h.obj o, kv.2 < h.cells.size) :
+    DocAllocated h v0 :=
+  ⟨fun a hv => harr a (rootReach_closed h v0 S h0 hstep _ hv),
    fun o hv => hobj o (rootReach_closed h v0 S h0 hstep _ hv)⟩
 
-
-/-- a tree-shaped copy of a JSON value (what `newValueJson` builds) is solid -/
-theorem ReprB.docSolid {h : Heap} {na no : Nat} {v : Val} {j : JVal} (r : ReprB h na no v j) :
-    DocSolid h v := by
-  apply DocSolid.of_closed h v (fun v => ∃ na no j, ReprB h na no v j) ⟨na, no, j, r⟩
+/-- a tree-shaped copy of a JSON value (what `newValueJson` builds) lies in the heap -/
+theorem ReprB.docAllocated {h : Heap} {na no : Nat} {v : Val} {j : JVal} (r : ReprB h na no v j) :
+    DocAllocated h v := by
+  apply DocAllocated.of_closed h v (fun v => ∃ na no j, ReprB h na no v j) ⟨na, no, j, r⟩
   · rintro v d w ⟨na, no, j, hv⟩ hd hw
     cases hv with
     | null | bool | str | num => cases hd
@@ -128,18 +129,28 @@ theorem ReprB.docSolid {h : Heap} {na no : Nat} {v : Val} {j : JVal} (r : ReprB 
         simp only [List.mem_map] at hkv
         obtain ⟨z, hz, rfl⟩ := hkv
         exact ⟨_, _, _, hrec z hz⟩
-  · rintro v ⟨na, no, j, hv⟩
-    cases hv <;> simp
   · rintro a ⟨na, no, j, hv⟩
     cases hv with
-    | arr na no a Z hna ha harr hlt hrec => exact ha
+    | arr na no a Z hna ha harr hlt hrec =>
+      refine ⟨ha, ?_⟩
+      intro c hc
+      rw [harr] at hc
+      simp only [List.mem_map] at hc
+      obtain ⟨z, hz, rfl⟩ := hc
+      exact hlt z hz
   · rintro o ⟨na, no, j, hv⟩
     cases hv with
-    | obj na no o Z hno ho hobj hlt hrec => exact ho
+    | obj na no o Z hno ho hobj hlt hrec =>
+      refine ⟨ho, ?_⟩
+      intro kv hkv
+      rw [hobj] at hkv
+      simp only [List.mem_map] at hkv
+      obtain ⟨z, hz, rfl⟩ := hkv
+      exact hlt z hz
 
-/-- every document loaded from (plain) JSON is solid -/
-theorem newValueJson_docSolid (j : JVal) (hj : j.Plain) (s s' : St) (v : Val)
-    (e : newValueJson j s = .ok v s') : DocSolid s'.heap v :=
-  (newValueJson_spec j s v s' hj e).2.docSolid
+/-- every document loaded from (plain) JSON lies in the heap -/
+theorem newValueJson_docAllocated (j : JVal) (hj : j.Plain) (s s' : St) (v : Val)
+    (e : newValueJson j s = .ok v s') : DocAllocated s'.heap v :=
+  (newValueJson_spec j s v s' hj e).2.docAllocated
 
 end Jqawk
